@@ -36,6 +36,16 @@ func NewBlockSchema(bs *schema.BlockSchema) blockSchema {
 func (bs blockSchema) DependentBodySchema(block *hcl.Block) (*schema.BodySchema, schema.DependencyKeys, LookupResult) {
 	result := LookupFailed
 
+	if len(bs.DependentBody) > 0 {
+		for i, labelSchema := range bs.Labels {
+			if labelSchema.IsDepKey && i >= len(block.Labels) {
+				// a label the body depends on is not written (yet),
+				// so the dependent body cannot be told
+				return nil, schema.DependencyKeys{}, result
+			}
+		}
+	}
+
 	dks := dependencyKeysFromBlock(block, bs)
 	b, err := dks.MarshalJSON()
 	if err != nil {
